@@ -341,7 +341,7 @@ class Engine:
             if kind == "pylist":
                 return self.pylist_sv(c, elem_hint)
             if kind == "iter":
-                src, pos = c
+                src, pos = c[0], c[1]
                 return SV(z3.Extract(src.t, pos, z3.Length(src.t) - pos), src.ty)
         if isinstance(v, (tuple, list)):
             return self.pylist_sv(list(v), elem_hint)
@@ -447,6 +447,8 @@ class Engine:
             return tuple(self.fresh_of("%s.%d" % (name, i), e, assume_inv) for i, e in enumerate(ty.elems))
         if isinstance(ty, TOpt) and isinstance(ty.elem, (TObj, TList, TDict)):
             raise Unsupported("optional reference parameter")
+        if ty == TSlice:
+            return self.alloc(("slice", tuple(self.fresh("%s.%s" % (name, f), TOpt(TInt)) for f in ("start", "stop", "step"))))
         return self.fresh(name, ty)
 
     def fresh_dict(self, name, ty):
@@ -903,7 +905,7 @@ class Engine:
         if c[0] == "iter":
             pos = self.fresh(name + ".pos", TInt)
             self.assume(pos.t >= 0)
-            return ("iter", (c[1][0], pos.t))
+            return ("iter", (c[1][0], pos.t) + tuple(c[1][2:]))
         if c[0] == "obj":
             return ("obj", c[1], {f: self.havoc_value(name + "." + f, x, c[1].fields.get(f)) for f, x in c[2].items()})
         if c[0] == "file":
@@ -945,6 +947,8 @@ class Engine:
         env.update(extra)
         for inv in spec.get("invariant", []):
             self.assume(self.spec_bool(inv, env, old=True))
+        for (ln, exprs) in spec.get("hints", []):
+            self.add_hint(ln, exprs, env)
 
     def st_While(self, s, fr):
         k, spec, unroll = self.loop_spec(fr)
@@ -1007,10 +1011,9 @@ class Engine:
                 q = -stp
                 n = z3.If(a > b, (a - b + (q - 1)) / q, 0) if q != 1 else z3.If(a > b, a - b, 0)
             else:
-                # symbolic step: must be positive (obligation) ; n = ceil((b-a)/c)
+                # symbolic step: either sign (zero raises ValueError); the two signs are separate paths
                 self.may_raise("ValueError", c == 0, node.lineno, "range() step may be zero")
-                if not self.spec_mode:
-                    self.oblige("range_step_positive", c > 0, node.lineno, "engine models only positive symbolic steps")
+                positive = self.fork(c > 0)
                 cache = {}
 
                 def getk(k):
@@ -1024,7 +1027,7 @@ class Engine:
                         self.assume(v.t == a + kt * c)
                         cache[key] = v
                     return cache[key]
-                return IterDesc(None, getk, has=lambda k: getk(k).t < b)
+                return IterDesc(None, getk, has=(lambda k: getk(k).t < b) if positive else (lambda k: getk(k).t > b))
             return IterDesc(z3.simplify(n), lambda k: SV(z3.simplify(a + z3_int(k) * c), TInt))
         if isinstance(v, (bytes, bytearray)):
             return IterDesc(len(v), lambda k: v[k] if isinstance(k, int) else SV(
@@ -1063,8 +1066,10 @@ class Engine:
                         SV(d.length - 1 - z3_int(k), TInt)))
                 return IterDesc(d.length, lambda k: d.get(SV(d.length - 1 - z3_int(k), TInt)))
             if c[0] == "iter":
-                src, pos = c[1]
-                return IterDesc(z3.Length(src.t) - pos, lambda k: self.unbox(SV(src.t[pos + z3_int(k)], src.ty.elem)))
+                src, pos = c[1][0], c[1][1]
+                ff = c[1][2] if len(c[1]) > 2 else None
+                return IterDesc(z3.Length(src.t) - pos, lambda k: self.unbox(SV(src.t[pos + z3_int(k)], src.ty.elem)),
+                                (lambda k: ff(pos + z3_int(k))) if ff else None)
             if c[0] == "zip":
                 ds = [self.iter_desc(x, fr, node) for x in c[1]]
                 if all(isinstance(d.length, int) for d in ds):
